@@ -13,14 +13,26 @@ from taurex.opacity.ktables.ktable import KTable  # noqa
 from taurex.cia.cia import CIA  # noqa
 
 
+def _axis(a):
+    """an axis as handed over: an integer array stays an integer array (loaders keep the dtype of the file)"""
+    a = np.asarray(a)
+    return a if a.dtype.kind == 'i' else np.asarray(a, dtype=float)
+
+
+def _as_stored(a, integer):
+    """the axis in the dtype a file holding whole numbers would give"""
+    a = np.asarray(a, dtype=float)
+    return a.astype(np.int64) if integer and np.all(a == np.round(a)) else a
+
+
 class SynthOpacity(InterpolatingOpacity):
     """xsecGrid[P, T, wn] in cm2, pressureGrid in Pa (ascending), T ascending."""
 
     def __init__(self, name, wn, T, P, xsec, mode='linear'):
         super().__init__('Synth:' + name, interpolation_mode=mode)
         self._name = name
-        self._wn = np.asarray(wn, dtype=float)
-        self._T = np.asarray(T, dtype=float)
+        self._wn = _axis(wn)
+        self._T = _axis(T)
         self._P = np.asarray(P, dtype=float)
         self._x = np.asarray(xsec, dtype=float)
         assert self._x.shape == (len(self._P), len(self._T), len(self._wn))
@@ -56,8 +68,8 @@ class SynthKTable(KTable, InterpolatingOpacity):
     def __init__(self, name, wn, T, P, kcoeff, weights, mode='linear'):
         InterpolatingOpacity.__init__(self, 'SynthK:' + name, interpolation_mode=mode)
         self._name = name
-        self._wn = np.asarray(wn, dtype=float)
-        self._T = np.asarray(T, dtype=float)
+        self._wn = _axis(wn)
+        self._T = _axis(T)
         self._P = np.asarray(P, dtype=float)
         self._x = np.asarray(kcoeff, dtype=float)
         self._w = np.asarray(weights, dtype=float)
@@ -121,6 +133,41 @@ class SynthCIA(CIA):
         i = int(np.searchsorted(Tg, T, side='right') - 1)
         f = (T - Tg[i]) / (Tg[i + 1] - Tg[i])
         return self._tab[i] * (1 - f) + self._tab[i + 1] * f
+
+
+_STORED_CHEM = {}
+
+
+def stored_array_chemistry():
+    """TaurexChemistry whose mixing-ratio properties hand out the arrays it keeps (what a user or plug-in chemistry that
+    stores its profiles typically does) instead of fresh copies: numerically identical to the built-in, but whoever
+    writes into what it was handed now writes into the chemistry.  The kept arrays are renewed whenever the underlying
+    profiles change (a parameter was set, the chemistry re-initialised)."""
+    if 'cls' in _STORED_CHEM:
+        return _STORED_CHEM['cls']
+    from taurex.data.profiles.chemistry import TaurexChemistry
+
+    class StoredArrayChemistry(TaurexChemistry):
+        def _kept(self, key, fresh):
+            if fresh is None:
+                return None
+            store = self.__dict__.setdefault('_verif_kept', {})
+            fresh = np.asarray(fresh)
+            ent = store.get(key)
+            if ent is None or ent[0].shape != fresh.shape or not np.array_equal(ent[0], fresh, equal_nan=True):
+                ent = (fresh.copy(), fresh.copy())
+                store[key] = ent
+            return ent[1]
+
+        @property
+        def activeGasMixProfile(self):
+            return self._kept('active', TaurexChemistry.activeGasMixProfile.fget(self))
+
+        @property
+        def inactiveGasMixProfile(self):
+            return self._kept('inactive', TaurexChemistry.inactiveGasMixProfile.fget(self))
+    _STORED_CHEM['cls'] = StoredArrayChemistry
+    return StoredArrayChemistry
 
 
 def reset_world():
@@ -208,12 +255,15 @@ def build_world(w, ktables=False, kweights=None, mode='linear', wn_per_mol=None)
         wn = W.wn if not wn_per_mol else wn_per_mol[g['mol']]
         Tg, Pg, tab = table_arrays(g['table'], len(wn))
         W.tables[g['mol']] = (Tg, Pg, tab, wn)
+        form = w.get('form', 'plain')
+        wn_s = _as_stored(wn, form in ('int-wn', 'int-both'))
+        Tg_s = _as_stored(Tg, form in ('int-T', 'int-both'))
         if ktables:
             kw = np.asarray(kweights, dtype=float)
             ktab = np.repeat(tab[..., None], len(kw), axis=-1)
-            KTableCache().add_opacity(SynthKTable(g['mol'], wn, Tg, Pg, ktab, kw, mode=mode))
+            KTableCache().add_opacity(SynthKTable(g['mol'], wn_s, Tg_s, Pg, ktab, kw, mode=mode))
         else:
-            OpacityCache().add_opacity(SynthOpacity(g['mol'], wn, Tg, Pg, tab, mode=mode))
+            OpacityCache().add_opacity(SynthOpacity(g['mol'], wn_s, Tg_s, Pg, tab, mode=mode))
     radius_m = w['radius'] * RJUP
     W.Tlayers = layer_temperatures(w['temp'], w['nlayers'])
     # keep the atmosphere gravitationally bound: if the isothermal estimate of its
